@@ -20,7 +20,7 @@ CHECKS = {
 
 DET = 'bounded-exhaustive enumeration of inputs on the instrumented implementation (deterministic schedule, virtual clock) against a Go reference model'
 CHECKS.update({
- 'C01': ('model_checking', 'all arrival sequences (length<=4/5 over 10 boundary timestamps) x sizes x MAXOUTOFORDERNESS x feed policy x keys through the real engine against ref.Tumbling, plus all schedules (<=1/2 deviations) of ingest vs trigger/watermark goroutines on the window object for fixed sequences', 'DESIGN.md 3/C01', SEQ_NOTE + '; ' + SCHED_NOTE, DET + ' + stateless schedule DFS on the window object'),
+ 'C01': ('model_checking', 'all arrival sequences (length<=4/5 over 10 boundary timestamps) x sizes x MAXOUTOFORDERNESS x feed policy x keys through the real engine against ref.Tumbling, plus all schedules (<=2/3 deviations) of ingest vs trigger/watermark goroutines on the window object for fixed sequences', 'DESIGN.md 3/C01', SEQ_NOTE + '; ' + SCHED_NOTE, DET + ' + stateless schedule DFS on the window object'),
  'C02': ('model_checking', 'all event scripts (length<=4/5 over on-time/late/too-late timestamps and garbage rows) x 3 event-time window kinds (session also with a second key that only pushes the watermark) x MAXOUTOFORDERNESS x ALLOWEDLATENESS on the real engine under the eager schedule, IDLETIMEOUT scripts, and schedule exploration of the window objects; monitors for early firing, on-time loss, late-update contents/window_id, too-late and garbage rows (with/without differential)', 'DESIGN.md 3/C02', SEQ_NOTE, DET + ' and per-delivery monitors'),
  'C03': ('model_checking', 'all value sequences (length<=4/6 over numbers, NULL, missing) for every listed aggregate, percentile/nth_value, expression arguments, all ordered batch pairs, forward/reverse shared-instance histories, two interleaved groups in one batch for every aggregate; compared with ref.Agg', 'DESIGN.md 3/C03', SEQ_NOTE, DET),
  'C04': ('model_checking', '18 key-tuple alphabets plus a pairwise collision search over separator/escape/marker characters (2 and 3 columns) (separator-like strings, NULL marker text, empty string, NULL, missing, numbers, upper(k); 0..3 columns) x 4 window kinds x all row sequences of length<=4/5; delivered (group,ids) multiset must equal the typed-tuple reference grouping', 'DESIGN.md 3/C04', SEQ_NOTE, DET),
@@ -30,7 +30,7 @@ CHECKS.update({
 })
 
 CHECKS.update({
- 'C05': ('model_checking', 'all SELECT lists of 1..2/3 items from 9 item kinds x 8 WHERE clauses on 160 rows, and the documented nested access paths (arr[0], arr[-1], d["x"], ds[1].x, mat[1][0]) as items and in WHERE on 360 rows, through EmitSync (history = all earlier rows; every 7th row alone), Emit + sync sink and the result channel, against a projection/filter reference; plus all schedules (<=1/2 deviations) of a producer with a sync sink, an async sink and a channel reader (order); auxiliary: a free-running -race pass of Emit || EmitSync on general-path direct queries (results compared with the sequential ones)', 'DESIGN.md 3/C05', SEQ_NOTE + '; ' + SCHED_NOTE, DET + ' + stateless schedule DFS'),
+ 'C05': ('model_checking', 'all SELECT lists of 1..2/3 items from 9 item kinds x 8 WHERE clauses on 160 rows, and the documented nested access paths (arr[0], arr[-1], d["x"], ds[1].x, mat[1][0]) as items and in WHERE on 360 rows, through EmitSync (history = all earlier rows; every 7th row alone), Emit + sync sink and the result channel, against a projection/filter reference; plus all schedules (<=2/3 deviations) of a producer with a sync sink, an async sink and a channel reader (order); auxiliary: a free-running -race pass of Emit || EmitSync on general-path direct queries (results compared with the sequential ones)', 'DESIGN.md 3/C05', SEQ_NOTE + '; ' + SCHED_NOTE, DET + ' + stateless schedule DFS'),
  'C06': ('model_checking', 'all generated expression ASTs (arithmetic with precedence/parentheses, comparisons, NOT/AND/OR incl. mixed precedence, searched and simple CASE) in textual variants, in SELECT and WHERE, on 45 typed rows against ref.Expr (SQL three-valued logic), each also with reversed row order on fresh process-wide caches; scalar functions over argument tuples (arity <=2/3, variadic ones always 3) through the call routes', 'DESIGN.md 3/C06', SEQ_NOTE, DET),
  'C07': ('model_checking', 'exhaustive product of SELECT item sets (agg op literal, agg op agg, parenthesised, aggregate over expression / function / CASE, function over aggregate, the same parameterised aggregate twice) x HAVING x ORDER BY x LIMIT x DISTINCT on 5 datasets against a relational reference', 'DESIGN.md 3/C07', SEQ_NOTE, DET),
  'C11': ('model_checking', 'every token string of length <=5/6 over 25 tokens and every byte string of length <=4/5 over 16 hostile bytes after 6 prefixes parsed under panic capture and a hang watchdog; every generated grammar statement (incl. un-aliased JOINs, keyword-bearing identifiers and 108 MATCH_RECOGNIZE statements) compared field by field with the returned configuration and re-parsed in 12 layouts (token-wise keyword case x separators)', 'DESIGN.md 3/C11', 'trusted base: the statement generator doubles as the expectation; rsql.Parse is called directly (no scheduler needed)', 'bounded-exhaustive enumeration of inputs/programs on the real parser'),
